@@ -816,18 +816,20 @@ package argmapper
 //@   after "result = append(result, input)" set ins = add(ins, hc(input))
 //@   after "result = append(result, input)" set ins = add(ins, hc(input))
 //@   after "result = append(result, input)" set ins = add(ins, hc(input))
-//@   loop * invariant wf(g) && sameRefs(g)
-//@   loop * invariant gOK(g)
-//@   loop * invariant footGrows(g)
-//@   loop * invariant bVals(b) && bConvs(b) && has(g.hash, hc(root)) && hkind(hc(root)) == 5
-//@   loop * invariant forall(k, any, imp(old(has(g.hash, k)), has(g.hash, k)))
-//@   loop * invariant imp(old(ruleInv(g)), ruleInv(g))
-//@   loop * invariant forall(a, any, b, any, imp(old(edge(g, a, b)), edge(g, a, b)))
-//@   loop * invariant rootedSet(g, root)
-//@   loop * invariant listed(result)
+//@   tail-split
+//@   loop * invariant [wf] wf(g) && sameRefs(g)
+//@   loop * invariant [gOK using inv9.gOK, inv8.gOK, graph] gOK(g)
+//@   loop * invariant [foot] footGrows(g)
+//@   loop * invariant [b using inv9.b, inv8.b, graph.vertices-kept] bVals(b) && bConvs(b) && has(g.hash, hc(root)) && hkind(hc(root)) == 5
+//@   loop * invariant [verts-kept] forall(k, any, imp(old(has(g.hash, k)), has(g.hash, k)))
+//@   loop * invariant [rules] imp(old(ruleInv(g)), ruleInv(g))
+//@   loop * invariant [edges-kept] forall(a, any, b, any, imp(old(edge(g, a, b)), edge(g, a, b)))
+//@   loop * invariant [rooted using inv9.rooted, inv8.rooted, graph.edges-kept, graph.vertices-kept] rootedSet(g, root)
+//@   loop * invariant [listed using inv9.listed, inv8.listed] listed(result)
 //@   loop * invariant (result == nil || fresh(result)) && sliceskept([]graph.Vertex) && sliceskept([]*Func) && sliceskept([]ConverterGenFunc)
 //@   after "copy(convs, b.convs)" assert [supplied-converters-still-well-formed] bConvs(b)
-//@   loop 8 invariant len(convs) >= len(b.convs) && forall(i, int, imp(0 <= i && i < len(b.convs), convs[i] == b.convs[i])) && fresh(convs)
-//@   loop 8 invariant forall(i, int, imp(0 <= i && i < len(rslice8), has(g.hash, hc(rslice8[i])) && g.hash[hc(rslice8[i])] == rslice8[i]))
-//@   loop 9 invariant len(convs) >= len(b.convs) && forall(i, int, imp(0 <= i && i < len(b.convs), convs[i] == b.convs[i])) && fresh(convs)
-//@   loop 9 invariant forall(i, int, imp(0 <= i && i < len(rslice8), has(g.hash, hc(rslice8[i])) && g.hash[hc(rslice8[i])] == rslice8[i]))
+//@   loop 8 invariant [convs using inv9.convs, inv8.convs] len(convs) >= len(b.convs) && forall(i, int, imp(0 <= i && i < len(b.convs), convs[i] == b.convs[i])) && fresh(convs)
+//@   loop 8 invariant [verts using inv9.verts, inv8.verts, graph.vertices-kept] forall(i, int, imp(0 <= i && i < len(rslice8), has(g.hash, hc(rslice8[i])) && g.hash[hc(rslice8[i])] == rslice8[i]))
+//@   loop 9 invariant [convs using inv9.convs, inv8.convs] len(convs) >= len(b.convs) && forall(i, int, imp(0 <= i && i < len(b.convs), convs[i] == b.convs[i])) && fresh(convs)
+//@   loop 9 invariant [verts using inv9.verts, inv8.verts, graph.vertices-kept] forall(i, int, imp(0 <= i && i < len(rslice8), has(g.hash, hc(rslice8[i])) && g.hash[hc(rslice8[i])] == rslice8[i]))
+//@   before "value := newValueFromVertex(vertex)" assert [vertex-is-a-representative using inv8.verts, inv8.gOK] repOK(vertex)
